@@ -444,23 +444,24 @@ class H:
 # ----------------------------------------------------------------------------------------------
 class Harness:
     def __init__(self, fn, name, tiers, max_paths, timeout_ms, allowed_exc, doc, functions, bounds, stubs,
-                 escalate_s, kind, strata):
+                 escalate_s, kind, strata, max_decisions=400):
         self.fn, self.name, self.tiers = fn, name, tiers
         self.max_paths, self.timeout_ms, self.allowed_exc = max_paths, timeout_ms, allowed_exc
         self.doc, self.functions, self.bounds, self.stubs = doc, functions, bounds, stubs
         self.escalate_s = escalate_s
         self.kind = kind
         self.strata = strata
+        self.max_decisions = max_decisions
 
 
 REGISTRY = {}
 
 
 def harness(name, tiers=('quick', 'thorough'), max_paths=64, timeout_ms=700, allowed_exc=(), functions=(), bounds='',
-            stubs=(), escalate_s=None, kind='property', strata=None):
+            stubs=(), escalate_s=None, kind='property', strata=None, max_decisions=400):
     def deco(fn):
         REGISTRY[name] = Harness(fn, name, tiers, max_paths, timeout_ms, allowed_exc, (fn.__doc__ or '').strip(),
-                                 list(functions), bounds, list(stubs), escalate_s, kind, strata)
+                                 list(functions), bounds, list(stubs), escalate_s, kind, strata, max_decisions)
         return fn
     return deco
 
